@@ -174,6 +174,7 @@ ARITY_DELTA = {'ucnt': 1}
 def rule_hd_arity(cx, rep, port):
     """the arity delta of every installed chain writer (UniqCount: +1) is applied to the header before set_header"""
     w, rows, n = table(cx, port)
+    _learn_header_names(rows)
     p = cx.port(port)
     mod = cx.engine_mod(port)
     chain = {c.name: c for c in roles.chain_writers(p, mod)}
@@ -248,8 +249,26 @@ def _prepend_delta(e):
     return 0
 
 
+_HEADERISH = {'output_header', 'column_infos', 'query_column_infos', 'select_column_infos'}
+
+
 def _headerish(name):
-    return name in ('output_header', 'column_infos', 'query_column_infos', 'select_column_infos')
+    return name in _HEADERISH
+
+
+def _learn_header_names(rows):
+    """names of the header list and of the column-info list, learnt by def-use from the events: the argument of set_header, and
+    the last argument of the select_output_header call that defines it (so renaming these locals does not matter)"""
+    for r in rows:
+        hdr_args = [a for e in r.events if e.kind == 'sink' and e.what == 'set_header' for a in e.extra['args']]
+        for h in hdr_args:
+            if h.isidentifier():
+                _HEADERISH.add(h)
+        for e in r.events:
+            if e.kind == 'def' and e.what in _HEADERISH and isinstance(e.extra, ast.Call) and (call_name(e.extra) or '') == 'select_output_header' and e.extra.args:
+                last = dotted(e.extra.args[-1])
+                if last:
+                    _HEADERISH.add(last)
 
 
 def rule_pa_with(cx, rep, port):
@@ -372,6 +391,7 @@ def rule_hd_countpos(cx, rep, port):
     """outside EXCEPT the count column of DISTINCT COUNT must be accounted for *before* names are generated (so that colK numbers
     count it); prepending a name to the finished header is only right where every other name is a source name (EXCEPT)"""
     w, rows, n = table(cx, port)
+    _learn_header_names(rows)
     bad = None
     good = 0
     for r in _ok_rows(rows):
